@@ -133,7 +133,7 @@ CLAIMED = {
               "C04_faithful_or_refuses_partial is a theorem on the C05 fragment (scalars, nested list/tuple/set, dict family, slices, names, operator getters, arrays, sparse, dtype, masked, RNGs, partial, bytes/bytearray, object arrays of EVERY rank and shape with cells of any kind in the fragment; arbitrary sharing) under the decidable guard c04_ok "
               "(tuple, defaultdict and bytes subclasses keep their class: C04-F2/F3/F5 repaired); REFUSALS: C04_same_spelling_refused -- any dict or defaultdict with two kept keys of one JSON spelling, anywhere inside a value, makes dumps raise (induction over entries and position; "
               "C04_same_spelling_order: earlier values' exceptions win, later values are not serialised, property-valued entries are skipped first: D08 repaired in /repo), C04_unsupported_refused; one refuted theorem (vm_compute witness) per remaining corruption class = open findings "
-              "D09 (frozenset/deque payload), D26 (property values), C04-F1, F4 (scalar subclasses, surrogate pairs); D10 is repaired in /repo: the former witness (a (2,2) array of lists) and seven further shapes (rank 0, zero-length axes, arrays of arrays) round-trip exactly (Example C04_objarray_fixed); C04_dump_pure holds by type. Beyond the fragment (user classes) correspondence-only: the model's normalised schema AND its "
+              "D09 (frozenset/deque payload), D26 (property values), C04-F1, F4 (scalar subclasses, surrogate pairs), and C04-F6 (a masked array's non-default fill_value / hard mask is not stored: harness-level finding, the pval abstraction has no notion of those attributes); D10 is repaired in /repo: the former witness (a (2,2) array of lists) and seven further shapes (rank 0, zero-length axes, arrays of arrays) round-trip exactly (Example C04_objarray_fixed); C04_dump_pure holds by type. Beyond the fragment (user classes) correspondence-only: the model's normalised schema AND its "
               "predicted loaded value -- including the predicted corruption, refusal or exception class -- are compared with /repo on >= 350 generated values per run, and c04_ok => faithful-or-refuses is evaluated per case; dump purity by fingerprint before/after."),
         note=("Trusted: harness/pval_emit.py (object -> pval term), absval/canon (self-tested each run), numpy/scipy/json float codecs as opaque tokens, zipfile. D07 (bool keys), D08 (same-spelling keys), D25 (defaultdict keys), C04-F2 (defaultdict subclasses), "
               "C04-F3 (tuple subclasses), C04-F5 (bytes / bytearray subclasses, numpy.bytes_) and D10 (object arrays of rank 0 / >= 2 lost their shape) repaired in /repo."),
